@@ -4449,10 +4449,10 @@ class FlowIR(object):
             # VV: adding floats is hard, let's assume that there're at most 2 decimals
             int_weights = [int(e * 1000) for e in weights]
 
-            if sum(int_weights) != 1000:
+            if sum(int_weights) != 1000 or min(weights) < 0:
                 fallbackWeight = int(1000 / num_stages) / 1000.0
 
-                flowirLogger.log(19, "Stage weights do not add to one: %s = %3.3lf\n" % (weights, sum(weights)))
+                flowirLogger.log(19, "Stage weights do not add to one (or are negative): %s = %3.3lf\n" % (weights, sum(weights)))
                 flowirLogger.log(19, "All stage-weights will default to %3.3lf\n" % fallbackWeight)
 
                 for idx in range(num_stages):
